@@ -939,7 +939,7 @@ class InstructionCollection:
         self.MovRmReg = make_rm_reg("mov", 0x89, read_op1=False)
 
         self.ShrRm = make_rm("shr", 0xD1, 5)
-        self.ShlRm = make_rm("shl", 0xD1, 5)
+        self.ShlRm = make_rm("shl", 0xD1, 4)
         self.NotRm = make_rm("not", 0xF7, 2)
         self.NegRm = make_rm("neg", 0xF7, 3)
 
@@ -976,7 +976,7 @@ class InstructionCollection:
         self.ShrCl = ShrCl
 
         class ShlCl(shift_cl_base):
-            r = 6
+            r = 4
             syntax = Syntax(["shl", " ", shift_cl_base.rm, ",", " ", "cl"])
 
         self.ShlCl = ShlCl
